@@ -40,11 +40,11 @@ def lattice(params, ost, step, mini):
     return pts, dict(minijob=float(mini), midijob=float(midi), ceil_rv=float(ceil_rv), ceil_kv=float(ceil_kv))
 
 
-def build(wages, year, ost, kids, count_column=False):
+def build(wages, year, ost, kids, count_column=False, age=35):
     """kids: number of children under 25 (0, 1, 2, 5). From 2023-07-01 the number matters (discount per child); it is supplied as the
     computed column ges_pflegev_anz_kinder_bis_24 because the lattice frame holds one single-person household per wage."""
     n = len(wages)
-    base = popgen.person(1, 1, 35, year, wohnort_ost=ost, ges_pflegev_hat_kinder=bool(kids), arbeitsstunden_w=40.0)
+    base = popgen.person(1, 1, age, year, wohnort_ost=ost, ges_pflegev_hat_kinder=bool(kids), arbeitsstunden_w=40.0)
     data = {k: np.repeat(np.asarray([v]), n) for k, v in base.items()}
     if count_column:
         data["ges_pflegev_anz_kinder_bis_24"] = np.repeat(np.asarray([int(kids)]), n)
@@ -66,7 +66,7 @@ def check_frame(out, res, wages, b, ds, cfg):
         emp = res[f"{br}_beitr_arbeitnehmer_m"].to_numpy(dtype=float)
         agb = res[f"{br}_beitr_arbeitgeber_m"].to_numpy(dtype=float)
         tot = res[f"_{br}_beitr_midijob_sum_arbeitnehmer_arbeitgeber_m"].to_numpy(dtype=float)
-        out.state((br, ds, cfg["ost"], cfg["kids"]))
+        out.state((br, ds, cfg["ost"], cfg["kids"], cfg.get("age", 35)))
         out.step(len(w))
         sig = lambda k: f"{br}:{k}"  # noqa: E731
 
@@ -132,18 +132,19 @@ def check_frame(out, res, wages, b, ds, cfg):
 
 
 def task(arg):
-    ds, ost, kids, step = arg
+    ds, ost, kids, step = arg[:4]
+    age = arg[4] if len(arg) > 4 else 35
     out = Partial()
     year = int(ds[:4])
     p, f = harness.env(ds)
-    cfg = {"ost": ost, "kids": kids}
+    cfg = {"ost": ost, "kids": kids, "age": age}
     cc = "ges_pflegev_anz_kinder_bis_24" in f
     if kids > 1 and not cc:
         return out.dump()  # before 2023-07-01 only 'has children' matters
     try:
-        pre = sim.sim(build([1000.0], year, ost, kids, cc), ds, targets=["minijob_grenze", "geringfügig_beschäftigt"])
+        pre = sim.sim(build([1000.0], year, ost, kids, cc, age), ds, targets=["minijob_grenze", "geringfügig_beschäftigt"])
         wages, b = lattice(p, ost, step, float(pre["minijob_grenze"].iloc[0]))
-        df = build(wages, year, ost, kids, cc)
+        df = build(wages, year, ost, kids, cc, age)
         cfg["boundaries"] = b
         res = sim.sim(df, ds, targets=TARGETS)
     except Exception as e:  # noqa: BLE001
@@ -162,7 +163,7 @@ def replay(case):
     year = int(ds[:4])
     p, f = harness.env(ds)
     wages = sorted({float(case["bruttolohn_m"]), float(case.get("previous_wage", case["bruttolohn_m"])), float(case.get("next_wage", case["bruttolohn_m"]))})
-    df = build(wages, year, case["ost"], case["kids"], "ges_pflegev_anz_kinder_bis_24" in f)
+    df = build(wages, year, case["ost"], case["kids"], "ges_pflegev_anz_kinder_bis_24" in f, case.get("age", 35))
     res = sim.sim(df, ds, targets=TARGETS)
     col = f"{case['branch']}_beitr_arbeitnehmer_m"
     vals = dict(zip(wages, res[col].tolist()))
@@ -180,10 +181,12 @@ def run(tier):
         dates = popgen.d15()
         step = 1.0
     tasks = [(d.isoformat(), ost, kids, step) for d in dates for ost in (False, True) for kids in (0, 1, 2, 5)]
+    # a childless employee below the age from which the childless surcharge applies (23)
+    tasks += [(d.isoformat(), ost, 0, step, 21) for d in dates for ost in (False, True)]
     for part in harness.pmap(task, harness.rotate(tasks)):
         rep.merge(part)
     rep.bound = {"dates": [d.isoformat() for d in dates], "lattice_step_eur": step, "configs": "east/west x 0/1/2/5 children under 25 (2 and 5 only from 2023-07-01, when the number matters)",
-                 "person": "employee aged 35, not self-employed, not retired, statutory health insurance"}
+                 "person": "employee aged 35 (and childless aged 21), not self-employed, not retired, statutory health insurance"}
     rep.assumptions = ["monotonicity is checked between consecutive lattice points (step as stated) plus every statutory boundary +-0.01 / +-1 ulp",
                        "dates inside the recorded C08 crash window (2017-01-01..2017-06-30) cannot be simulated and are counted as skipped"]
     return rep.finish(
